@@ -117,7 +117,28 @@ def run_raw(spec, which=("agg",)):
     import warnings
     with warnings.catch_warnings():
         warnings.simplefilter("ignore")
-        t, ext = build(spec)
+        warm = spec.get("warm")
+        if warm:
+            # a result must not depend on earlier calls on the same table: build the table with other key cells, aggregate/window
+            # once, then write the final cells IN PLACE (hash-equal partners such as -1 / -2 included) and only then run the
+            # judged call — anything memoised by the first call is stale now
+            pre = dict(spec, cols=[[nm, list(v)] for nm, v in spec["cols"]], ext=[[nm, list(v)] for nm, v in spec.get("ext", [])])
+            for kind, j, i, old in warm["edits"]:
+                (pre["cols"] if kind == "t" else pre["ext"])[j][1][i] = old
+            t, ext = build(pre)
+            for w in which:
+                try:
+                    (t.aggregate if w == "agg" else t.window)(**call_kwargs(t, ext, spec, [Recorder() for _ in range(len(spec.get("apply") or []))]))
+                except Exception:
+                    pass
+            for kind, j, i, old in warm["edits"]:
+                col = t.cols()[j] if kind == "t" else ext[j]
+                try:
+                    col[i] = (spec["cols"] if kind == "t" else spec["ext"])[j][1][i]
+                except Exception:
+                    raise Skip("the in-place edit was refused")
+        else:
+            t, ext = build(spec)
         out = {"nrows": len(t),
                "tcols": [list(c._underlying) for c in t.cols()], "tnames": [c._name for c in t.cols()],
                "xcols": [list(c._underlying) for c in ext], "xnames": [c._name for c in ext]}
@@ -268,7 +289,7 @@ def _reduce(spec):
 # generators
 # --------------------------------------------------------------------------------------
 
-KEYPOOLS = [[0, 1, None], ["a", "b", None], [1, True, 1.0, 2, None], ["a", "", "b", 0, None], [None, 5],
+KEYPOOLS = [[0, 1, None], [-1, -2, 3, None], ["a", "b", None], [1, True, 1.0, 2, None], ["a", "", "b", 0, None], [None, 5],
             ["x", "y", "z", "w"], [0, 1, 2, 3, 4, 5, None], [False, 0, 0.0, "0", None]]
 VALPOOLS = [[1, 2, None], [None, None, 3], list(range(-4, 9)) + [None, None], [0, 7], [None], [5, 5, 6, None], [100, -100, 3, None],
             # large offset, small spread: a variance formula that cancels catastrophically (sum of squares minus square of sum)
@@ -346,6 +367,22 @@ def random_spec(rng, fam, interleave=False):
     spec = {"fam": fam, "cols": cols, "ext": ext, "over": over, "apply": [], "single": []}
     if rng.random() < 0.12:
         spec["declared"] = True
+    if rng.random() < 0.2 and n > 0:
+        # warm variant: one or two key cells had another value of the same type before an earlier call
+        edits = []
+        for ref in over:
+            kind, j = ("x", ref[1]) if ref[0] == "x" else ("t", ref[1])
+            colv = (ext if kind == "x" else cols)[j][1]
+            i = rng.randrange(len(colv))
+            cur = colv[i]
+            if cur is None or isinstance(cur, bool) or not isinstance(cur, (int, str)):
+                continue
+            partner = {-1: -2, -2: -1}.get(cur) if isinstance(cur, int) else None
+            old = partner if partner is not None and rng.random() < 0.8 else rng.choice([v for v in colv if type(v) is type(cur)] + [cur])
+            if old != cur and (kind != "t" or [c[0] for c in cols].count(cols[j][0]) == 1 or True):
+                edits.append([kind, j, i, old])
+        if edits:
+            spec["warm"] = {"edits": edits[:2]}
     if valrefs:
         for f in FNS:
             if rng.random() < 0.5:
